@@ -105,6 +105,17 @@ pub fn run(lines: &[String]) -> Vec<String> {
                 out.push(format!("ret {}", r));
                 out.push(format!("execs {}", env::execs()));
             }
+            "callk" => {
+                let name = t[2].to_string();
+                let a: Vec<String> = t[3..].iter().map(|x| x.to_string()).collect();
+                let r = if vsubjects::is_async(&name) {
+                    block_on(Box::pin(vsubjects::callk_async(Box::leak(name.clone().into_boxed_str()), a)))
+                } else {
+                    vsubjects::callk_sync(&name, &a)
+                };
+                out.push(format!("ret {}", r.unwrap_or_else(|| "<unknown subject or argument>".into())));
+                out.push(format!("execs {}", env::execs()));
+            }
             "spawn" => {
                 let slot: u64 = t[1].parse().unwrap();
                 let name: &'static str = Box::leak(t[2].to_string().into_boxed_str());
